@@ -49,6 +49,7 @@ def cases(draw):
         # S3 only: a second directory sharing files with the first, transferred in the same call
         "tree2": draw(st.one_of(st.none(), st.none(), gen.trees(max_files=3, max_depth=1, content=gen.small_contents()))),
         "only_n": None,
+        "only_m": None,
     }
 
 
@@ -262,6 +263,46 @@ def audit_final(case, run, ref_ids, label):
     return viols, set(objs), len(temps)
 
 
+def second_level(case, ctx, d, run, n, ref_ids, counters, fail_m):
+    """From the state left by the first kill, kill the re-run before each of its events, audit, then let a
+    third run finish and audit again."""
+    base = os.path.join(d, f"post{n}")
+    shutil.copytree(run, base, symlinks=True)
+    probe = os.path.join(d, f"post{n}-probe")
+    shutil.copytree(base, probe, symlinks=True)
+    status, M, _ = crash.run_child(lambda: operation(case, probe), probe)
+    shutil.rmtree(probe, ignore_errors=True)
+    viols = []
+    if status != "done":
+        shutil.rmtree(base, ignore_errors=True)
+        return viols  # the plain re-run path reports this
+    ms = range(1, M + 1) if case.get("only_m") is None else [case["only_m"]]
+    for m in ms:
+        if ctx.over_budget() and not ctx.replaying:
+            break
+        r2 = os.path.join(d, f"post{n}-m{m}")
+        shutil.copytree(base, r2, symlinks=True)
+        status, _, _ = crash.run_child(lambda r2=r2: operation(case, r2), r2, kill_at=m)
+        if status == "killed":
+            counters["second_level_crash_points"] = counters.get("second_level_crash_points", 0) + 1
+            ctx.evaluations += 1
+            v, _t, _m = audit_after_kill(case, r2, f"{n}+{m}")
+            if not v:
+                status, _, _ = crash.run_child(lambda r2=r2: operation(case, r2), r2)
+                if status != "done":
+                    v = [Viol("rerun-error", f"third run after kills at events {n} and {m} failed: {status[:600]}")]
+                else:
+                    v, _, _ = audit_final(case, r2, ref_ids, "rerun")
+            if v:
+                fail_m[0] = m
+                viols = v
+        shutil.rmtree(r2, ignore_errors=True)
+        if viols:
+            break
+    shutil.rmtree(base, ignore_errors=True)
+    return viols
+
+
 # ------------------------------------------------------------------------------------------
 def run_case(case, ctx):  # noqa: C901
     with ctx.tmpdir() as d:
@@ -307,7 +348,8 @@ def run_case(case, ctx):  # noqa: C901
         counters = {"crash_points": 0, "temp_leftovers": 0, "mismatching_unprotected_after_kill": 0,
                     "events_in_run0": N}
         ns = range(1, N + 1) if case.get("only_n") is None else [case["only_n"]]
-        sdig = digest({k: v for k, v in case.items() if k != "only_n"})
+        sdig = digest({k: v for k, v in case.items() if k not in ("only_n", "only_m")})
+        fail_m = [None]
         for n in ns:
             if ctx.over_budget() and not ctx.replaying:
                 ctx.skipped += 1
@@ -332,7 +374,12 @@ def run_case(case, ctx):  # noqa: C901
             counters["temp_leftovers"] += ntemps
             counters["mismatching_unprotected_after_kill"] += nmis
             v2 = []
-            if not v1:
+            if not v1 and nmis and case.get("only_m") is None and not ctx.replaying or \
+                    (not v1 and case.get("only_m") is not None):
+                # a mismatching leftover exists: the re-run's own healing may be interrupted too.
+                # Enumerate every crash point m of the RE-RUN from this post-kill state (second-level kills).
+                v2 = second_level(case, ctx, d, run, n, ref_ids, counters, fail_m)
+            if not v1 and not v2:
                 status, _, _ = crash.run_child(lambda run=run: operation(case, run), run)
                 if status != "done":
                     v2 = [Viol("rerun-error", f"re-run after kill at event {n} failed: {status[:800]}")]
@@ -343,6 +390,8 @@ def run_case(case, ctx):  # noqa: C901
                 unknown = ctx.split_known(v1 + v2)
                 if unknown:
                     fcase = dict(case, only_n=n)
+                    if fail_m[0] is not None:
+                        fcase["only_m"] = fail_m[0]
                     ctx.failure = {"case": fcase, "violations": [v.to_json() for v in unknown]}
                     ctx.note(case, Result(classes=[f"scenario={case['scenario']}"], counters=counters))
                     raise Failure("; ".join(f"[{v.sig}] {v.msg}" for v in unknown))
@@ -385,7 +434,7 @@ def run(ctx):
     for i, c in enumerate(CANON):
         if i % ctx.nworkers == ctx.worker % len(CANON) or ctx.nworkers > len(CANON) and i == ctx.worker % len(CANON):
             try:
-                ctx.exec_case(dict(c, only_n=None), run_case)
+                ctx.exec_case(dict(c, only_n=None, only_m=None), run_case)
             except Failure:
                 return
     ctx.run_given(cases(), run_case, ctx.n(quick=4, thorough=70))
